@@ -186,6 +186,7 @@ type tres struct {
 	Samples     []any            `json:"samples,omitempty"`
 	Counters    map[string]int64 `json:"counters"`
 	Note        string           `json:"note,omitempty"`
+	Long        bool             `json:"long_history,omitempty"`
 }
 
 func newRes(name string) *tres {
@@ -284,13 +285,6 @@ const (
 
 // ---------------------------------------------------------------------------------------------
 // the engine: one live tree, exact restore, step + oracle
-
-type tsnap struct {
-	meta  z.VerifTreeMeta
-	used  []byte
-	model []uint64
-	key   [2]uint64
-}
 
 type teng struct {
 	prop    string // "C10" or "C16"
@@ -942,6 +936,9 @@ func (e *teng) search() {
 	res, cfg := e.res, e.cfg
 	start := time.Now()
 	deadline := start.Add(time.Duration(cfg.BudgetS * float64(time.Second)))
+	if !treeDeadline.IsZero() && treeDeadline.Before(deadline) {
+		deadline = treeDeadline
+	}
 	defer func() { res.WallS = time.Since(start).Seconds() }()
 	s := &tsearch{e: e, confirmed: map[string]int{}}
 	nk := len(e.tracked)
@@ -975,7 +972,7 @@ func (e *teng) search() {
 			for si, id := range cur.ids {
 				if si%32 == 0 && time.Now().After(deadline) {
 					res.Exhaustive = false
-					res.Note += fmt.Sprintf("time budget %.0fs reached at depth %d (%d of %d states of that depth expanded). ", cfg.BudgetS, d, si, len(cur.ids))
+					res.Note += fmt.Sprintf("time budget (%.0fs, or the tier deadline) reached at depth %d (%d of %d states of that depth expanded). ", cfg.BudgetS, d, si, len(cur.ids))
 					break levels
 				}
 				if e.abort != "" {
@@ -1222,9 +1219,10 @@ func (e *teng) lightSet(op top, prev uint64, model []uint64) (pan any, mism []tm
 	return nil, e.mism
 }
 
-// c10Long runs one long history under the model oracle; upTo < 0 = the whole history.
+// c10Long runs one long history under the model oracle.
 func c10Long(l *tlong, dir string) *tres {
 	res := newRes(l.Name)
+	res.Long = true
 	start := time.Now()
 	defer func() { res.WallS = time.Since(start).Seconds() }()
 	restore := z.VerifSetPageSize(l.PageSize)
@@ -1255,6 +1253,11 @@ func c10Long(l *tlong, dir string) *tres {
 	var prev uint64
 	lastLen := z.VerifTreeMetaOf(e.t).BufLen
 	for i, op := range ops {
+		if i%2048 == 0 && pastTreeDeadline() {
+			res.Exhaustive = false
+			res.Note += fmt.Sprintf("tier deadline reached after operation #%d of %d. ", i, len(ops))
+			return res
+		}
 		var pan any
 		var mism []tmis
 		var isMax map[uint64]bool
@@ -1321,6 +1324,8 @@ type tjob struct {
 	Long *tlong `json:"long,omitempty"`
 	Dir  string `json:"dir"`
 	Out  string `json:"out"`
+	// Deadline (unix seconds, 0 = none): the tier's internal deadline; a job that reaches it stops with exhaustive=false.
+	Deadline float64 `json:"deadline,omitempty"`
 }
 
 func (j *tjob) name() string {
@@ -1331,6 +1336,10 @@ func (j *tjob) name() string {
 }
 
 func (j *tjob) run() *tres {
+	treeDeadline = time.Time{}
+	if j.Deadline > 0 {
+		treeDeadline = time.Unix(0, int64(j.Deadline*1e9))
+	}
 	switch {
 	case j.Cfg != nil:
 		return runCfg(j.Prop, j.Cfg, j.Dir)
@@ -1339,6 +1348,11 @@ func (j *tjob) run() *tres {
 	}
 	return c10Long(j.Long, j.Dir)
 }
+
+// treeDeadline is the tier's internal deadline for the job running in this process (zero = none).
+var treeDeadline time.Time
+
+func pastTreeDeadline() bool { return !treeDeadline.IsZero() && time.Now().After(treeDeadline) }
 
 const treeWorkerEnv = "ZCHECK_TREE_JOB"
 
@@ -1435,12 +1449,12 @@ func runJobs(jobs []*tjob, parallel int, tier string) []*tres {
 }
 
 // publish feeds the measured results into the evidence.
-func publish(r *ev.Run, results []*tres, bfsN int) {
+func publish(r *ev.Run, results []*tres) {
 	var states, trans, replays, longs int64
 	exhaustive := true
 	maxDepth := 0
 	var summaries []any
-	for i, res := range results {
+	for _, res := range results {
 		for _, v := range res.Viol {
 			r.Violation(v.Key, v.What, v.Replay)
 			for n := int64(1); n < v.N; n++ {
@@ -1450,7 +1464,7 @@ func publish(r *ev.Run, results []*tres, bfsN int) {
 		exhaustive = exhaustive && res.Exhaustive
 		trans += res.Transitions
 		replays += res.Replays
-		if i < bfsN {
+		if !res.Long {
 			states += res.States
 			if res.Depth > maxDepth {
 				maxDepth = res.Depth
@@ -1473,7 +1487,7 @@ func publish(r *ev.Run, results []*tres, bfsN int) {
 		}
 		sum := map[string]any{"name": res.Name, "states": res.States, "transitions": res.Transitions,
 			"depth_completed": res.Depth, "exhaustive": res.Exhaustive, "wall_s": math.Round(res.WallS*100) / 100, "counters": cnt}
-		if i < bfsN {
+		if !res.Long {
 			sum["new_states_per_depth"] = res.Levels
 			sum["closed_before_depth_bound"] = res.Closed
 		}
@@ -1564,7 +1578,7 @@ func treeReplay(prop string, r *ev.Run, path string) {
 	default:
 		ev.Fatalf("replay %s: unknown mode %q", path, rp.Mode)
 	}
-	publish(r, []*tres{res}, 1)
+	publish(r, []*tres{res})
 	r.Cov["exhaustive"] = false
 	r.Cov["replay_of"] = path
 }
@@ -1587,7 +1601,7 @@ var (
 	c10Iters    = []string{"even-keys:v+1", "all:3"}
 )
 
-func c10Jobs(tier, dir string) (jobs []*tjob, bfsN int) {
+func c10Jobs(tier, dir string) (jobs []*tjob) {
 	th := tier == "thorough"
 	pick := func(q, t int) int {
 		if th {
@@ -1637,7 +1651,6 @@ func c10Jobs(tier, dir string) (jobs []*tjob, bfsN int) {
 		add(&tcfg{Name: "ps4096-full-alphabet", PageSize: 4096, Keys: c10KeysFull, Vals: c10ValsFull, TS: c10TSFull,
 			Iters: c10Iters, Reset: true, Depth: 4, BudgetS: 300})
 	}
-	bfsN = len(jobs)
 	// long histories
 	n := pick(20000, 40000)
 	for _, ps := range []int{80, 256, 4096} {
@@ -1661,7 +1674,7 @@ func c10Jobs(tier, dir string) (jobs []*tjob, bfsN int) {
 				PageSize: ps, Pattern: "stride", N: n + 1, Vals: "hash", DelEvery: n / 3}})
 		}
 	}
-	return jobs, bfsN
+	return jobs
 }
 
 func c10(tier string, r *ev.Run, replay string) {
@@ -1672,13 +1685,16 @@ func c10(tier string, r *ev.Run, replay string) {
 	}
 	dir := treeWorkDir()
 	defer os.RemoveAll(dir)
-	jobs, bfsN := c10Jobs(tier, dir)
-	par := 1
+	jobs := c10Jobs(tier, dir)
+	par, limit := 1, 40.0
 	if tier == "thorough" {
-		par = 12
+		par, limit = 12, 560
+	}
+	for _, j := range jobs {
+		j.Deadline = float64(time.Now().UnixNano())/1e9 + limit
 	}
 	results := runJobs(jobs, par, tier)
-	publish(r, results, bfsN)
+	publish(r, results)
 	r.Cov["page_sizes"] = "80, 96, 112 (quick); + 160, 4096 (thorough); long histories at 80, 256, 4096 (+96,112,160 thorough)"
 	ex := r.Cov["explanation"].(map[string]any)
 	ex["alphabet"] = "Set(k,v), DeleteBelow(ts), IterateKV(rewrite), Reset; per search: see 'searches' (full alphabet: keys 1..9, 2^63, 2^64-3, 2^64-2; values 1,2,3,2^64-1; ts 1,2,3,4,2^64-1)"
